@@ -149,6 +149,7 @@ struct Obj {
 
   // Function
   bool is_inline;
+  bool is_inline_only; // so far declared "inline" only, neither "static" nor "extern"
   Obj *params;
   Node *body;
   Obj *locals;
